@@ -191,6 +191,7 @@ pub fn judge_binary(data: &[u8], how: &str, decs: &[DecType], cx: &mut Cx) -> BT
             cx.push(viol("C02", format!("C02/false-accept/{d}/no-complete-item"), hex(data)));
         }
         if let Some(v) = &out.view {
+            cx.stat(&format!("c14:presence-mask:{:02x}", crate::owner::presence_mask(v)));
             check_authentic(v, dec, how, cx);
             // C04 receiver side
             cx.stat("c04:accepted-input-compared");
